@@ -164,6 +164,8 @@ class ModelInterp(MiniEval):
         if isinstance(base, Obj) and not attr.startswith('__'):
             if hasattr(base, attr):
                 return getattr(base, attr)
+        if isinstance(base, tuple) and attr in getattr(base, '_fields', ()):
+            return getattr(base, attr)  # checker-made namedtuple stand-in
         raise Unsupported(f'attribute .{attr} on {type(base).__name__}')
 
     def class_attr(self, inst: Stub | None, cls_q: str, attr: str) -> Any:
